@@ -304,3 +304,49 @@ End PatchCons.
 Global Hint Resolve Cons_cJSON_strdup_s Cons_cJSON_AddItemToObject_s Cons_cJSONUtils_strdup Cons_u_get_array_item
   Cons_decode_array_index_from_pointer Cons_compare_pointers Cons_get_item_from_pointer Cons_strrchr_slash
   Cons_decode_pointer_inplace Cons_detach_path : cons.
+
+(** * 4. cJSON_AddItemToObject with a string argument: the copy of the name is the fresh block *)
+Section AddToObjectS.
+  Context (oracle : nat -> bool) (h : heap) (F : forest) (p x : positive) (d dp : rdata) (cs csp : list tree)
+          (c : cstring) (nm : bytes).
+  Hypothesis W : WF h F.
+  Hypothesis Hpx : p <> x.
+  Hypothesis Hx : find_root x F = Some (T x d cs).
+  Hypothesis Hp : find_tree p (remove_root x F) = Some (T p dp csp).
+  Hypothesis Href : is_ref dp = false.
+  Hypothesis Hc : CsReads h c nm.
+
+  Lemma cJSON_AddItemToObject_s_sim_owned :
+    oracle (h_req h) = false ->
+    let nk := h_next h in
+    let d' := rd_owned_key d nk in
+    let F' := set_children p (csp ++ [T x d' cs]) (remove_root x F) in
+    let hb := free_all (old_key d) (alloc_str h (nm ++ [0])) in
+    cJSON_AddItemToObject_s oracle (Some p) c (Some x) h =
+      Ret (true, upd_maps hb (heap_lnk_of F') (heap_dat_of F')) /\
+    WF (upd_maps hb (heap_lnk_of F') (heap_dat_of F')) F'.
+  Proof.
+    intros Ho nk d' F' hb.
+    set (ha := alloc_str h (nm ++ [0])).
+    pose proof (WF_alloc_str h F (nm ++ [0]) W) as Wa. fold ha in Wa.
+    destruct (ato_focus h F x d cs W Hx d') as (FL & E1 & E2 & Hin).
+    destruct (ato_tail h F p x d dp cs csp W Hpx Hx Hp Href ha d' (Some nk) (clear_flag (rd_type d) c_cJSON_StringIsConst) Wa) as (T1 & T2 & T3).
+    { reflexivity. }
+    { apply is_ref_set_key_clear. }
+    { intros b Hb. unfold old_key, d' in Hb. rewrite is_const_set_key_clear in Hb. cbn in Hb.
+      apply elem_of_list_singleton in Hb as ->. split_and!.
+      - intros Hin'. exact (Pos.lt_irrefl _ (wf_fresh _ _ W _ Hin')).
+      - unfold ha. cbn. set_solver.
+      - unfold ha. cbn. by rewrite lookup_insert.
+      - unfold ha. cbn. apply Pos.lt_succ_diag_r. }
+    { unfold old_key, d'. rewrite is_const_set_key_clear. cbn. apply NoDup_singleton. }
+    split; [|exact T3].
+    unfold cJSON_AddItemToObject_s. rewrite (CsReads_not_null _ _ _ Hc). cbn [is_null orb]. rewrite (ptr_eqb_Some_ne _ _ Hpx).
+    rewrite !bindM_assoc. rewrite (bindM_Ret _ _ _ _ _ (cJSON_strdup_s_ok oracle h c nm Hc Ho)).
+    cbn [is_null]. fold ha.
+    assert (Hlx : x ∈ h_live ha).
+    { apply (WF_ids_live _ _ _ Wa). rewrite ids_flat. apply elem_of_list_fmap. by exists (x, d, tid <$> cs). }
+    rewrite !bindM_assoc. rewrite (bindM_Ret _ _ _ _ _ (run_get_type_plain _ _ _ Hlx (WF_lookup_dat _ _ _ _ _ Wa Hin))).
+    rewrite bindM_ret. exact T2.
+  Qed.
+End AddToObjectS.
